@@ -25,18 +25,24 @@ LEVEL_TEXT = (
     'Lean theorems, for every abstract workbook (sheets x stored cells in any SpreadsheetML storage form, '
     'shared-string table, defined names) and every ignore list, over a statement-by-statement model of '
     'reader.py / patch.py / model.py (parse_archive, build_defined_names, link_cells_to_defined_names, '
-    'build_ranges, get_cell_value) / xltypes.py / utils.py: the key set of the loaded model, the content of '
-    'every loaded cell per storage form, the expansion of shared formulas, the binding of defined names, '
-    'cached results before evaluation, and that ignored sheets contribute nothing. The model is tied to the '
-    'running code by loading real .xlsx packages written from raw XML and comparing all four dicts of the '
-    'model; the clause "evaluates like a model built from the same contents" is checked code against code '
-    'and against values computed by the harness.')
+    'build_ranges, get_cell_value) / xltypes.py / utils.py: load_cells (the key set = stored cells of the '
+    'sheets not ignored + blank placeholders for members of referenced areas), load_content / '
+    'load_refines_spec (constant or formula text + cached result per storage form = Spec), shared_expands, '
+    'names_bound and names_bound_spec_partial (binding = Spec, apostrophes in sheet names included), '
+    'cached_before_eval, ignored_sheets_contribute_nothing, address injectivity, load_total_partial. The '
+    'model is tied to the running code by loading real .xlsx packages written from raw XML (every storage '
+    'form, every subset of ignored sheets) and comparing all four dicts of the model; the clause "evaluates '
+    'like a model built from the same contents" is checked code against code and against values computed '
+    'by the harness.')
 LEVEL_NOTE = (
     'The theorems are about the mapping AFTER openpyxl\'s contract: XML parsing, value typing per storage '
-    'form, the shared-formula translator, range_boundaries, the SHEET_TITLE regex and the tokenizer\'s range '
+    'form, the shared-formula translator, range_boundaries, the SHEET_TITLE regex and the tokenizer\'s area '
     'operands are hand-modelled (tied by the correspondence on generated workbooks only), not verified. '
-    'The evaluation clause (load = dict) is not a theorem; it is tested. Known: D1101 (a defined name whose '
-    'sheet name contains an apostrophe is not bound), D1102 (a sheet name containing "!" aborts loading).')
+    'The evaluation clause (load = dict) is not a theorem; it is tested. Partial: names_bound_spec_partial '
+    '(guard: sheet name without "$", "!", ":", edge blanks or a leading apostrophe) and load_total_partial '
+    '(guard: no "!" in a loaded sheet name, finding D1102); kernel-checked counter-examples to the full '
+    'statements are in Props/C11.lean. D1101 (apostrophe in the sheet name of a name target) is repaired in '
+    '/repo and is an ordinary violation if it returns.')
 DESIGN_REF = '§4 C11'
 
 TRUSTED = [
@@ -44,24 +50,31 @@ TRUSTED = [
     'hand-written model lean/XlVerif/Model/C11.lean of reader.py, patch.py, model.py (loader part), xltypes.py, '
     'utils.py, tied to the code by this correspondence run (not proved equal to the Python)',
     'openpyxl 3.1.5 is modelled, not verified: XML -> cells, value typing per storage form (parse_cell), the '
-    'shared-formula table and Translator.translate_formula (modelled by a reference scanner for the formula '
-    'shapes generated here), get_column_letter, range_boundaries, SHEET_TITLE',
+    'shared-formula table and Translator.translate_formula (modelled by a reference scanner; the theorems '
+    'assume the scanner reads the formula tokens back, which the driver checks for every generated formula '
+    'and scan_reads_back proves for well-separated tokens), get_column_letter, range_boundaries, SHEET_TITLE',
     'the tokenizer\'s RANGE operands (XLFormula.terms) are modelled for area references only; '
     'associated_cells is not modelled',
     'the .xlsx writer and generators of this harness; zipfile; the evaluation clause is differential '
-    '(loaded model vs read_and_parse_dict model vs values computed by the harness)',
+    '(loaded model vs read_and_parse_dict model with the same defined names vs values computed by the harness)',
 ]
 ASSUMPTIONS = [
     'workbooks are well-formed SpreadsheetML: shared-string indices in range, one master per shared group '
-    'preceding its members, translated references stay on the sheet, distinct sheet names and coordinates',
+    'preceding its members, translated references stay on the sheet, distinct sheet names and coordinates '
+    '(the driver evaluates these hypotheses of the theorems on every generated workbook)',
     'defined names target one cell or one rectangular area on one sheet (constants, formulas, multi-area and '
     'whole-row/column targets are outside the statement); a name for a cell that is not loaded (empty, or on an '
-    'ignored sheet) is outside the statement',
+    'ignored sheet) and hidden names are outside the statement',
     'date-styled numbers are serials >= 61 in the 1900 system with a time part that is a multiple of 1/8 day',
-    'an empty <v/> with t="str" (read as "no value" by openpyxl) is not generated',
+    'an empty <v/> with t="str" or t="e" (read as "no value" by openpyxl) is not generated',
     'blank placeholder cells that build_ranges adds for members of referenced areas are allowed by the '
     'statement (they hold no content of any stored cell)',
-    'sheet names contain no "$" and formulas use upper-case references, no whole-row/column areas',
+    'sheet names contain no "$", no "," and no blank at either end (observed while building the check, not '
+    'modelled: "$" in a sheet name is stripped from references and name targets, a "," splits area references '
+    'at the comma, edge blanks are stripped by resolve_sheet — all three make references into such sheets read '
+    'blank); formulas use upper-case references and no whole-row/column areas',
+    'the spelling of XLRange.address_str, model.formulae, model.ranges, the back-links XLCell.defined_names and '
+    'the placeholders are compared with the Lean model only (differences are reported as model drift)',
 ]
 
 # ------------------------------------------------------------------------------------------ wire format
@@ -499,7 +512,7 @@ class OwnEval:
         tg = self.names.get(n)
         if tg is None:
             return False
-        if "'" in tg[1] or '!' in tg[1] or '$' in tg[1]:
+        if '!' in tg[1] or '$' in tg[1]:
             return False
         if len(tg) > 7:
             return True
@@ -1056,7 +1069,7 @@ def _c(col, row, f=None, st=None):
 
 
 def fixed_workbooks():
-    """Regression workbooks: the witnesses of D5, D7, D9, D53, D54 (fixed) and of D1101, D1102 (known)."""
+    """Regression workbooks: the witnesses of D5, D7, D9, D53, D54, D1101 (fixed) and of D1102 (known)."""
     out = []
     # D9: a defined name whose sheet is quoted; D5: $-absolute references; D7: SUM over a range name
     out.append(('D9-D5-D7', {
@@ -1100,7 +1113,7 @@ def fixed_workbooks():
             _c(1, 4, ['M', 0, master], ['I', 1]), _c(2, 4, ['S', 0], ['I', 2]), _c(3, 4, ['S', 0], ['Z']),
             _c(1, 5, ['S', 0], ['I', 999]), _c(3, 6, ['S', 0], ['R', 'text'])]}],
         'names': []}))
-    # D1101: apostrophe in the sheet name of a defined name's target
+    # D1101 (fixed): apostrophe in the sheet name of a defined name's target (also in corpus/C11)
     out.append(('D1101', {
         'sst': [],
         'sheets': [{'name': "It's", 'cells': [_c(1, 1, None, ['I', 8]), _c(1, 2, None, ['I', 2])]},
@@ -1187,8 +1200,7 @@ class Checker:
                     return False
                 if fid == 'D1102':
                     return 'crash' in impl and 'crash' in real and impl['crash'] == real['crash']
-                name = issue[4]
-                return 'names' in impl and 'names' in real and impl['names'].get(name) == real['names'].get(name)
+                return False
             if all(as_modelled(i) for i in issues):
                 for fid in {i[3] for i in issues}:
                     res.known.setdefault(fid, []).append({'ignore': ig, 'label': label})
@@ -1258,7 +1270,7 @@ class Checker:
             if b[0] == 'U':
                 continue
             tg = targets[name]
-            fid = 'D1101' if "'" in tg[1] else None
+            fid = None
             got = real['names'].get(name)
             if b[0] == 'C':
                 ok = got is not None and got[0] == 'C' and got[1] == b[1] and \
